@@ -26,8 +26,18 @@ impl<'a> Constructor<'a> {
 
         // If the constructor is fallible, we make sure that it returns a non-unit type on
         // the happy path.
+        // Generic parameters that only appear in the error type of a fallible constructor
+        // can't be inferred from the type that's being injected.
+        let mut error_only_parameters = IndexSet::new();
         if output_type.is_result() {
             let m = MatchResult::match_result(&output_type);
+            error_only_parameters = m
+                .err
+                .output
+                .unassigned_generic_type_parameters()
+                .difference(&m.ok.output.unassigned_generic_type_parameters())
+                .cloned()
+                .collect();
             output_type = m.ok.output;
             if output_type == Type::UNIT_TYPE {
                 return Err(ConstructorValidationError::CannotFalliblyReturnTheUnitType);
@@ -86,7 +96,7 @@ impl<'a> Constructor<'a> {
         }
 
         let output_unassigned_generic_parameters = output_type.unassigned_generic_type_parameters();
-        let mut free_parameters = IndexSet::new();
+        let mut free_parameters = error_only_parameters;
         for input in c.input_types() {
             free_parameters.extend(
                 input
